@@ -75,7 +75,7 @@ impl<K, V> LinkedHashMap<K, V> {
 opaque_types!(InputsMap, BootstrapSet);
 
 // Plutus language of a script source (C09)
-clone_eq!(Language);
+clone_eq!(Language, PlutusScript);
 impl PlutusScript {
     pub uninterp spec fn lang(&self) -> Language;
     #[verifier::external_body] pub fn language_version(&self) -> (r: Language) ensures r == self.lang() { unimplemented!() }
